@@ -275,6 +275,19 @@ func (l *lex) nextToken() Token {
 			return l.consumeInteger(next, pos)
 		}
 		return Token{Type: rune(next), Value: string(next), Pos: pos}
+	case '\\':
+		// A backslash at the end of a line joins it with the next one, as in Python. plz fmt emits these
+		// for implicitly concatenated string literals that aren't within brackets.
+		if l.bytes[l.pos] == '\r' && l.bytes[l.pos+1] == '\n' {
+			l.pos++
+		}
+		if l.bytes[l.pos] == '\n' {
+			l.pos++
+			l.line++
+			l.col = 0
+			return l.nextToken()
+		}
+		l.fail(pos, "Unknown symbol %c", next)
 	case '\t':
 		l.fail(pos, "Tabs are not permitted in BUILD files, use space-based indentation instead")
 	default:
